@@ -9,7 +9,7 @@
 (* to the pointer of that location reaches exactly that (marked) schema",  *)
 (* plus the invalid-pointer cases, predicted with Resolve.tla's Designates.*)
 (***************************************************************************)
-EXTENDS Pointer, Eval, Json, SequencesExt
+EXTENDS PointerCode, Eval, Json, SequencesExt
 
 CONSTANTS Family, K
 
@@ -34,7 +34,9 @@ IndexLaw == \A t \in IdxTokens : AtoiOK(t) = IndexOK(t)
 \* ---- documents ----
 Mark == <<R_0, R_1, R_2, R_3, R_4, R_5, R_6>>
 T(i) == [const |-> Num(Mark[i])]
-KeyStrs == {Join(k) : k \in Tokens} \cup {"U_e1", "$ref", "#", "?", "01"}
+\* (a key that is not spelled over the alphabet is one atom: it contains nothing the pointer syntax cares about)
+SpecialKeys == {<<"U_e1">>, <<"$ref">>, <<"#">>, <<"?">>, <<"0", "1">>}
+KeyStrs == {Join(k) : k \in Tokens \cup SpecialKeys}
 PropR(rf) == [properties |-> [r |-> [ref |-> rf]]]
 Dr(kw) == IF kw \in {"itemsArray", "additionalItems", "depSchemas", "definitions"} THEN "d7" ELSE "2020"
 Stamp(kw, s) == IF Dr(kw) = "d7" THEN s @@ [schema |-> D7http] ELSE s
@@ -46,16 +48,17 @@ SingleCases == {[u |-> Doc1(Stamp(kw, (kw :> T(1)) @@ PropR(LocalRef(FragPtr(<<S
                  : kw \in SingleKW}
 SeqCases == {[u |-> Doc1(Stamp(kw, (kw :> [j \in 1..3 |-> IF j = i THEN T(1) ELSE T(2)]) @@ PropR(LocalRef(FragPtr(<<SegI(kw, i)>>))))), kw |-> kw]
                : kw \in SeqKW, i \in 1..3}
-MapCases == {[u |-> Doc1(Stamp(kw, (kw :> ((k :> T(1)) @@ ("zz" :> T(2)))) @@ PropR(LocalRef(FragPtr(<<SegN(kw, k)>>))))), kw |-> kw]
-               : kw \in (MapKW \ {"patternProperties", "properties"}), k \in KeyStrs}
-            \cup {[u |-> Doc1([properties |-> (k :> T(1)) @@ ("zz" :> T(2)) @@ [r |-> [ref |-> LocalRef(FragPtr(<<SegN("properties", k)>>))]]]),
-                    kw |-> "properties"] : k \in KeyStrs \ {"r"}}
+MapCases == {[u |-> Doc1(Stamp(kw, (kw :> ((Join(t) :> T(1)) @@ ("zz" :> T(2)))) @@ PropR(LocalRef(FragPtr(<<SegN(kw, Join(t))>>))))), kw |-> kw,
+               keys |-> (Join(t) :> t)]
+               : kw \in (MapKW \ {"patternProperties", "properties"}), t \in Tokens \cup SpecialKeys}
+            \cup {[u |-> Doc1([properties |-> (Join(t) :> T(1)) @@ ("zz" :> T(2)) @@ [r |-> [ref |-> LocalRef(FragPtr(<<SegN("properties", Join(t))>>))]]]),
+                    kw |-> "properties", keys |-> (Join(t) :> t)] : t \in (Tokens \cup SpecialKeys) \ {<<"r">>}}
 \* twins: the map also has a key whose LITERAL text is the escaped spelling of the designated key
 \* ("~" next to "~0", "/" next to "~1", "~0" next to "~00"): a segment is unescaped before the lookup, always
-TwinCases == {[u |-> Doc1(Stamp(kw, (kw :> ((Join(t) :> T(1)) @@ (Join(Esc(t)) :> T(2)))) @@ PropR(LocalRef(FragPtr(<<SegN(kw, Join(t))>>))))), kw |-> kw]
+TwinCases == {[u |-> Doc1(Stamp(kw, (kw :> ((Join(t) :> T(1)) @@ (Join(Esc(t)) :> T(2)))) @@ PropR(LocalRef(FragPtr(<<SegN(kw, Join(t))>>))))), kw |-> kw, keys |-> (Join(t) :> t)]
                 : kw \in {"defs", "depSchemas", "dependentSchemas", "definitions"}, t \in {x \in Tokens : Esc(x) # x}}
              \cup {[u |-> Doc1([properties |-> (Join(t) :> T(1)) @@ (Join(Esc(t)) :> T(2)) @@ [r |-> [ref |-> LocalRef(FragPtr(<<SegN("properties", Join(t))>>))]]]),
-                     kw |-> "properties"] : t \in {x \in Tokens : Esc(x) # x}}
+                     kw |-> "properties", keys |-> (Join(t) :> t)] : t \in {x \in Tokens : Esc(x) # x}}
 \* an anchor (2020-12 $anchor / $dynamicAnchor, draft-07 fragment $id) SPELLED like the pointer of another
 \* location: a fragment that begins with "/" is a JSON Pointer, whatever names the document declares
 AnchorLikePointer ==
@@ -77,21 +80,75 @@ NestCases ==
 TN(i) == [minimum |-> Mark[i], maximum |-> Mark[i]]
 BadDoc == [allOf |-> <<TN(1), TN(2)>>, defs |-> [a |-> TN(3)], items |-> TN(4), required |-> <<"r">>, type |-> "object",
            minimum |-> R_0, title |-> "t"]
-BadPtrs == {"/allOf/+1", "/allOf/-0", "/allOf/+0", "/allOf/01", "/allOf/00", "/allOf/-", "/allOf/2", "/allOf/-1", "/allOf/1.0",
-            "/allOf/%201", "/allOf/1%20", "/allOf/0x1", "/allOf/", "/allOf", "/$defs", "/$defs/b", "/$defs/A", "/properties/q",
-            "/type", "/required", "/required/0", "/minimum", "/title", "/nosuch", "/items/0", "/allOf/0/x", "/allOf/0/const",
-            "allOf/0", "/AllOf/0", "/Items", "/$defs/a/", "//", "/", "/properties/p/~", "/defs/a", "/definitions/a",
-            "/allOf/0/", "/allOf/1/allOf/0",
-            \* a keyword that holds one subschema, absent from the document: nothing is designated
-            "/not", "/if", "/then", "/else", "/contains", "/additionalProperties", "/propertyNames", "/unevaluatedItems",
-            "/unevaluatedProperties", "/contentSchema", "/additionalItems", "/allOf/0/not", "/$defs/a/if", "/properties/p/items",
-            "/items/not", "/items/items",
-            \* indexes at and beyond the machine word
-            "/allOf/4294967296", "/allOf/4294967297", "/allOf/9223372036854775807", "/allOf/9223372036854775808", "/allOf/9223372036854775809",
-            "/allOf/18446744073709551615", "/allOf/18446744073709551616", "/allOf/18446744073709551617", "/allOf/99999999999999999999999999"}
-GoodRaw == {<<"/allOf/0", 1>>, <<"/allOf/1", 2>>, <<"/$defs/a", 3>>, <<"/items", 4>>, <<"/properties/p", 5>>, <<"", 0>>}
-BadCases == {[u |-> Doc1(BadDoc @@ [properties |-> [p |-> TN(5), r |-> [ref |-> Ref(EmptyURI, [k |-> "raw", s |-> p])]]]), kw |-> "bad", raw |-> p, want |-> 99] : p \in BadPtrs}
-            \cup {[u |-> Doc1(BadDoc @@ [properties |-> [p |-> TN(5), r |-> [ref |-> Ref(EmptyURI, [k |-> "raw", s |-> g[1]])]]]), kw |-> "good", raw |-> g[1], want |-> g[2]] : g \in GoodRaw}
+BadPtrAtoms == {<<"/", "allOf", "/", "+", "1">>,
+               <<"/", "allOf", "/", "-", "0">>,
+               <<"/", "allOf", "/", "+", "0">>,
+               <<"/", "allOf", "/", "0", "1">>,
+               <<"/", "allOf", "/", "0", "0">>,
+               <<"/", "allOf", "/", "-">>,
+               <<"/", "allOf", "/", "2">>,
+               <<"/", "allOf", "/", "-", "1">>,
+               <<"/", "allOf", "/", "1", ".", "0">>,
+               <<"/", "allOf", "/", "%", "2", "0", "1">>,
+               <<"/", "allOf", "/", "1", "%", "2", "0">>,
+               <<"/", "allOf", "/", "0", "x", "1">>,
+               <<"/", "allOf", "/">>,
+               <<"/", "allOf">>,
+               <<"/", "$defs">>,
+               <<"/", "$defs", "/", "b">>,
+               <<"/", "$defs", "/", "A">>,
+               <<"/", "properties", "/", "q">>,
+               <<"/", "type">>,
+               <<"/", "required">>,
+               <<"/", "required", "/", "0">>,
+               <<"/", "minimum">>,
+               <<"/", "title">>,
+               <<"/", "nosuch">>,
+               <<"/", "items", "/", "0">>,
+               <<"/", "allOf", "/", "0", "/", "x">>,
+               <<"/", "allOf", "/", "0", "/", "const">>,
+               <<"allOf", "/", "0">>,
+               <<"/", "AllOf", "/", "0">>,
+               <<"/", "Items">>,
+               <<"/", "$defs", "/", "a", "/">>,
+               <<"/", "/">>,
+               <<"/">>,
+               <<"/", "properties", "/", "p", "/", "~">>,
+               <<"/", "defs", "/", "a">>,
+               <<"/", "definitions", "/", "a">>,
+               <<"/", "allOf", "/", "0", "/">>,
+               <<"/", "allOf", "/", "1", "/", "allOf", "/", "0">>,
+               <<"/", "not">>,
+               <<"/", "if">>,
+               <<"/", "then">>,
+               <<"/", "else">>,
+               <<"/", "contains">>,
+               <<"/", "additionalProperties">>,
+               <<"/", "propertyNames">>,
+               <<"/", "unevaluatedItems">>,
+               <<"/", "unevaluatedProperties">>,
+               <<"/", "contentSchema">>,
+               <<"/", "additionalItems">>,
+               <<"/", "allOf", "/", "0", "/", "not">>,
+               <<"/", "$defs", "/", "a", "/", "if">>,
+               <<"/", "properties", "/", "p", "/", "items">>,
+               <<"/", "items", "/", "not">>,
+               <<"/", "items", "/", "items">>,
+               <<"/", "allOf", "/", "4", "2", "9", "4", "9", "6", "7", "2", "9", "6">>,
+               <<"/", "allOf", "/", "4", "2", "9", "4", "9", "6", "7", "2", "9", "7">>,
+               <<"/", "allOf", "/", "9", "2", "2", "3", "3", "7", "2", "0", "3", "6", "8", "5", "4", "7", "7", "5", "8", "0", "7">>,
+               <<"/", "allOf", "/", "9", "2", "2", "3", "3", "7", "2", "0", "3", "6", "8", "5", "4", "7", "7", "5", "8", "0", "8">>,
+               <<"/", "allOf", "/", "9", "2", "2", "3", "3", "7", "2", "0", "3", "6", "8", "5", "4", "7", "7", "5", "8", "0", "9">>,
+               <<"/", "allOf", "/", "1", "8", "4", "4", "6", "7", "4", "4", "0", "7", "3", "7", "0", "9", "5", "5", "1", "6", "1", "5">>,
+               <<"/", "allOf", "/", "1", "8", "4", "4", "6", "7", "4", "4", "0", "7", "3", "7", "0", "9", "5", "5", "1", "6", "1", "6">>,
+               <<"/", "allOf", "/", "1", "8", "4", "4", "6", "7", "4", "4", "0", "7", "3", "7", "0", "9", "5", "5", "1", "6", "1", "7">>,
+               <<"/", "allOf", "/", "9", "9", "9", "9", "9", "9", "9", "9", "9", "9", "9", "9", "9", "9", "9", "9", "9", "9", "9", "9", "9", "9", "9", "9", "9", "9">>}
+BadPtrs == {Join(a) : a \in BadPtrAtoms}
+GoodRawAtoms == {<<<<"/", "allOf", "/", "0">>, 1>>, <<<<"/", "allOf", "/", "1">>, 2>>, <<<<"/", "$defs", "/", "a">>, 3>>, <<<<"/", "items">>, 4>>,
+                 <<<<"/", "properties", "/", "p">>, 5>>, <<<<>>, 0>>}
+GoodRaw == {<<Join(g[1]), g[2]>> : g \in GoodRawAtoms}
+BadCases == {[u |-> Doc1(BadDoc @@ [properties |-> [p |-> TN(5), r |-> [ref |-> Ref(EmptyURI, [k |-> "raw", s |-> Join(pa)])]]]), kw |-> "bad", raw |-> Join(pa), atoms |-> pa, want |-> 99] : pa \in BadPtrAtoms}
+            \cup {[u |-> Doc1(BadDoc @@ [properties |-> [p |-> TN(5), r |-> [ref |-> Ref(EmptyURI, [k |-> "raw", s |-> Join(g[1])])]]]), kw |-> "good", raw |-> Join(g[1]), atoms |-> g[1], want |-> g[2]] : g \in GoodRawAtoms}
 
 Cases == CASE Family = "P1" -> SingleCases \cup SeqCases \cup MapCases \cup TwinCases \cup AnchorLikePointer \cup NestCases
            [] Family = "P2" -> BadCases
@@ -112,11 +169,38 @@ Designated ==
          t == Designates(cs.u, Dr(cs.kw), a, Node(cs.u, a).ref)
      IN t # NoTarget /\ t.p = Node(cs.u, a).ref.f.p /\ Node(cs.u, t) = T(1)
 
+\* the character sequence of a key string: the cases that iterate over tokens carry it (keys); the few fixed keys are listed
+FixedKeyChars(k) ==
+  CASE k = "a/b" -> <<"a", "/", "b">> [] k = "a~0b" -> <<"a", "~", "0", "b">> [] k = "%25" -> <<"%", "2", "5">>
+    [] k = "~1" -> <<"~", "1">> [] k = "01" -> <<"0", "1">> [] k = "" -> <<>> [] OTHER -> <<k>>
+KeyChars(k) == IF "keys" \in DOMAIN cs /\ k \in DOMAIN cs.keys THEN cs.keys[k] ELSE FixedKeyChars(k)
+RECURSIVE PathAtoms(_)
+PathAtoms(p) ==
+  IF p = <<>> THEN <<>>
+  ELSE LET seg == Head(p)
+       IN <<"/", JsonName(seg.k)>>
+          \o (IF "i" \in DOMAIN seg THEN <<"/", Digit(seg.i - 1)>> ELSE IF "n" \in DOMAIN seg THEN <<"/">> \o Esc(KeyChars(seg.n)) ELSE <<>>)
+          \o PathAtoms(Tail(p))
+\* L1 = L0 for generated locations: the text of the location's pointer walks to exactly that location
+PointerRefinesP1 ==
+  (Family = "P1" /\ phase = "done") =>
+     LET refp == Node(cs.u, Addr(1, <<SegN("properties", "r")>>)).ref.f.p
+         r == DerefCode(cs.u.docs[1].s, PathAtoms(refp))
+     IN r.st = "ok" /\ r.p = refp
+\* L1 = L0 for the raw pointers: the walk of json_pointer.go fails exactly on the pointers that name no subschema
+\* location and otherwise ends on the marked subschema
+PointerRefines ==
+  (Family = "P2" /\ phase = "done") =>
+     LET r == DerefCode(cs.u.docs[1].s, cs.atoms)
+     IN IF cs.want = 99 THEN r.st = "err"
+        ELSE r.st = "ok" /\ (IF cs.want = 0 THEN r.p = <<>> ELSE NodeAtS(cs.u.docs[1].s, r.p) = TN(cs.want))
+
 Verd(U, d) == [i \in DOMAIN Inst |-> IF Ev(U, d, Addr(1, <<>>), Inst[i], <<>>).ok THEN "T" ELSE "F"]
 Emit ==
   phase = "done" =>
     PrintT(<<"CASE", ToJson(
-      IF Family = "P1" THEN [u |-> cs.u, insts |-> Inst, res |-> "ok", exp |-> Verd(cs.u, Dr(cs.kw))]
+      IF Family = "P1" THEN [u |-> cs.u, insts |-> Inst, res |-> "ok", exp |-> Verd(cs.u, Dr(cs.kw)),
+                             targets |-> SetToSeq(DesignatedTargets(cs.u, Dr(cs.kw)))]
       ELSE IF cs.want = 99 THEN [u |-> cs.u, insts |-> Inst, res |-> "err", exp |-> <<>>]
       ELSE [u |-> cs.u, insts |-> [i \in 1..6 |-> Obj([r |-> Num(Mark[i])])], res |-> "ok",
             exp |-> [i \in 1..6 |-> IF cs.want = 0 THEN (IF i = 99 THEN "T" ELSE "x") ELSE IF i = cs.want THEN "T" ELSE "F"]])>>)
